@@ -56,3 +56,7 @@ CORPUS = [
                     _LOGGER.debug("Read timeout. Resending to %s.",""", """                if retries >= 2:
                     _LOGGER.debug("Read timeout. Resending to %s.",""", "S"),
 ]
+# round 3 (C08.t4): the reassembly premises are part of the exchange contract
+CORPUS += [
+    M("v3-size-from-untrimmed-buffer-imported", L, 'total_size = int.from_bytes(buf[2:4], "big") + 8', 'total_size = int.from_bytes(self._buffer[2:4], "big") + 8'),
+]
